@@ -202,7 +202,9 @@ Definition sl_sizes (st : sl) : list Z := [zlen (sl_keys st)].
 (* ====================================================================== *)
 (* 7. pkg/stats/stats_recorder.go recordOutgoingRTCP: lastSenderReports and
    lastReceiverReferenceTimes keep the last `maxLast` (5) values; and
-   pkg/stats/interceptor.go: recorders map (getRecorder adds; there is no Unbind). *)
+   pkg/stats/interceptor.go: recorders map (getRecorder adds; Unbind{Local,Remote}Stream ->
+   releaseRecorder deletes the entry, fix 0d520bf). si_step_prefix is the code before that
+   fix (NoOp.Unbind*Stream: the recorder stayed, F38). *)
 Inductive sr_op := SrSenderReport | SrXR (rrtrBlocks : Z).
 Definition sr_push (maxLast n : Z) : Z := if n + 1 >? maxLast then maxLast else n + 1.
 Definition sr_step (maxLast : Z) (st : Z * Z) (o : sr_op) : Z * Z :=
@@ -216,6 +218,12 @@ Inductive si_op := SiBind (ssrc : Z) | SiUnbind (ssrc : Z).
 Record si := { si_bound : list Z; si_recorders : list Z }.
 Definition si_init : si := {| si_bound := []; si_recorders := [] |}.
 Definition si_step (st : si) (o : si_op) : si :=
+  match o with
+  | SiBind s => {| si_bound := addset s (si_bound st); si_recorders := addset s (si_recorders st) |}
+  | SiUnbind s => {| si_bound := delset s (si_bound st);
+                     si_recorders := delset s (si_recorders st) |} (* releaseRecorder: delete(r.recorders, ssrc) *)
+  end.
+Definition si_step_prefix (st : si) (o : si_op) : si :=
   match o with
   | SiBind s => {| si_bound := addset s (si_bound st); si_recorders := addset s (si_recorders st) |}
   | SiUnbind s => {| si_bound := delset s (si_bound st); si_recorders := si_recorders st |} (* NoOp.Unbind*Stream *)
@@ -283,13 +291,17 @@ Definition fq_step (n : Z) (o : fq_op) : Z :=
 
 (* ====================================================================== *)
 (* 12. pkg/rtpfb/history.go: packets (counter -> record), twccToCounter,
-   ssrcSeqNrToCounter, with delete() removing the packet record as well. *)
+   ssrcSeqNrToCounter, with delete() removing the packet record as well; an
+   index entry is dropped only while it still points to the deleted packet
+   (fix 36b0b1f: a sequence number re-used by a later packet keeps its entry);
+   h_acked = history.acked (highestAcked is valid). *)
 Inductive h_op := HAdd (ssrc sq : Z) (isTw : bool) (tw : Z)
                 | HAckTw (tw : Z) (arrived : bool) | HAckSs (ssrc sq : Z) (arrived : bool) | HReport.
 Record hpkt := { hp_key : Z; hp_tw : Z; hp_isTw : bool }.
 Record hist := { h_counter : Z; h_packets : list (Z * hpkt); h_tw : list (Z * Z); h_ss : list (Z * Z);
-                 h_hi : Z; h_next : Z; h_clean : Z }.
-Definition h_init : hist := {| h_counter := 0; h_packets := []; h_tw := []; h_ss := []; h_hi := 0; h_next := 0; h_clean := 0 |}.
+                 h_hi : Z; h_acked : bool; h_next : Z; h_clean : Z }.
+Definition h_init : hist := {| h_counter := 0; h_packets := []; h_tw := []; h_ss := []; h_hi := 0; h_acked := false;
+                               h_next := 0; h_clean := 0 |}.
 Definition sskey (ssrc sq : Z) : Z := ssrc * 65536 + sq.
 Definition h_add (recordIsTw : bool) (st : hist) (ssrc sq : Z) (isTw : bool) (tw : Z) : hist :=
   let c := h_counter st in
@@ -297,26 +309,29 @@ Definition h_add (recordIsTw : bool) (st : hist) (ssrc sq : Z) (isTw : bool) (tw
      h_packets := aset c {| hp_key := sskey ssrc sq; hp_tw := tw; hp_isTw := recordIsTw && isTw |} (h_packets st);
      h_tw := if isTw then aset tw c (h_tw st) else h_tw st;
      h_ss := if isTw then h_ss st else aset (sskey ssrc sq) c (h_ss st);
-     h_hi := h_hi st; h_next := h_next st; h_clean := h_clean st |}.
+     h_hi := h_hi st; h_acked := h_acked st; h_next := h_next st; h_clean := h_clean st |}.
 Definition h_on_feedback (st : hist) (c : Z) (arrived : bool) : hist :=
   match aget c (h_packets st) with
   | None => st
-  | Some _ => if arrived && (h_hi st <? c) then
+  | Some _ => if arrived && (negb (h_acked st) || (h_hi st <? c)) then
       {| h_counter := h_counter st; h_packets := h_packets st; h_tw := h_tw st; h_ss := h_ss st;
-         h_hi := c; h_next := h_next st; h_clean := h_clean st |} else st
+         h_hi := c; h_acked := true; h_next := h_next st; h_clean := h_clean st |} else st
   end.
+(* the index entry of key k is dropped iff it points to counter c *)
+Definition idx_del (k c : Z) (idx : list (Z * Z)) : list (Z * Z) :=
+  match aget k idx with Some c' => if c' =? c then adel k idx else idx | None => idx end.
 (* delete(p) *)
 Definition h_delete (st : hist) (c : Z) (p : hpkt) : hist :=
   {| h_counter := h_counter st; h_packets := adel c (h_packets st);
-     h_tw := if hp_isTw p then adel (hp_tw p) (h_tw st) else h_tw st;
-     h_ss := adel (hp_key p) (h_ss st);
-     h_hi := h_hi st; h_next := h_next st; h_clean := h_clean st |}.
+     h_tw := if hp_isTw p then idx_del (hp_tw p) c (h_tw st) else h_tw st;
+     h_ss := idx_del (hp_key p) c (h_ss st);
+     h_hi := h_hi st; h_acked := h_acked st; h_next := h_next st; h_clean := h_clean st |}.
 Definition h_set_next (st : hist) (n : Z) : hist :=
   {| h_counter := h_counter st; h_packets := h_packets st; h_tw := h_tw st; h_ss := h_ss st;
-     h_hi := h_hi st; h_next := n; h_clean := h_clean st |}.
+     h_hi := h_hi st; h_acked := h_acked st; h_next := n; h_clean := h_clean st |}.
 Definition h_set_clean (st : hist) (n : Z) : hist :=
   {| h_counter := h_counter st; h_packets := h_packets st; h_tw := h_tw st; h_ss := h_ss st;
-     h_hi := h_hi st; h_next := h_next st; h_clean := n |}.
+     h_hi := h_hi st; h_acked := h_acked st; h_next := h_next st; h_clean := n |}.
 Definition h_report_one (st : hist) (i : Z) : hist :=
   match aget i (h_packets st) with
   | None => st
@@ -325,7 +340,7 @@ Definition h_report_one (st : hist) (i : Z) : hist :=
 Definition h_clean_one (st : hist) (i : Z) : hist :=
   match aget i (h_packets st) with None => st | Some p => h_delete st i p end.
 Definition h_report (st : hist) : hist :=
-  if h_next st >? h_hi st then st else
+  if negb (h_acked st) || (h_next st >? h_hi st) then st else
   let st1 := fold_left h_report_one (zrange (h_next st) (Z.to_nat (h_hi st - h_next st + 1))) st in
   let st2 := fold_left h_clean_one (zrange (h_clean st1) (Z.to_nat (h_next st1 - h_clean st1))) st1 in
   h_set_clean st2 ((h_next st2 - 1) mod 18446744073709551616).
